@@ -351,7 +351,7 @@ func genTACase(t *rapid.T, o genOpts) *hcCase {
 			small := cfg.clone()
 			on := topo.OnlineCPUs().Minus(topo.IsolatedCPUs()).Sorted()
 			if len(on) >= 2 {
-				small.TA.AvailableResources = polcfg.Constraints{polcfg.CPU: polcfg.Amount(fmt.Sprintf("cpuset:%d-%d", on[0], on[1]))}
+				small.TA.AvailableResources = polcfg.Constraints{polcfg.CPU: polcfg.Amount(fmt.Sprintf("cpuset:%d,%d", on[0], on[1]))}
 				small.TA.ReservedResources = polcfg.Constraints{polcfg.CPU: polcfg.Amount(fmt.Sprintf("cpuset:%d", on[0]))}
 			}
 			return small
